@@ -2,7 +2,7 @@
    for all integers (U1, U1U1) and all valid charges (Z2, Z4, Z2Z2). *)
 From SV Require Import Base.Prelude Base.Sym Gen.Symmetries Model.SymInst.
 From Coq Require Import Permutation ZifyBool.
-Open Scope Z_scope.
+Local Open Scope Z_scope.
 Ltac Zify.zify_post_hook ::= Z.to_euclidean_division_equations.
 
 (* ---------- generic facts ---------- *)
